@@ -121,7 +121,11 @@ class C40(Property):
             t = out.split()
             model = ["ok"] + ([] if t[1] == "_" else t[1].split(",")) if (c["op"] == "coords" and t[0] == "ok") else t
             got = impl(c)
-            ctx.agree(name, c, model, got)
+            ok = None
+            if c["op"] in ("com", "comdp") and model[0] == "ok" and got[0] == "ok":
+                # the division by the total intensity is rounded in float64: compare to 1e-12 (absolute, coordinates are O(1))
+                ok = all(abs(Fraction(a) - Fraction(b)) <= Fraction(1, 10 ** 12) * max(1, abs(Fraction(a))) for a, b in zip(model[1:], got[1:]))
+            ctx.agree(name, c, model, got, ok=ok)
             ctx.count(f"{c['op']}:{c.get('kind', '')}:{c.get('units', '')}:{got[0]}")
             ctx.case(c, nontrivial=c["op"] != "coords" or c["n"] > 1)
         ctx.traces += len(jobs)
@@ -167,28 +171,33 @@ class C40(Property):
             s = d.angular_sampling if c["units"] == "mrad" else d.sampling
             kx, ky = fx[p[0]] * s[0], fy[p[1]] * s[1]
             scale = max(abs(kx), abs(ky), s[0], s[1])
-            ok_known = True
-            first_moment = c["weight"] * complex(kx, ky)
-            if abs(got - first_moment) > 1e-5 * scale * max(1.0, c["weight"]):
+            # the centre of mass of a single bright pixel is that pixel's frequency (angle), whatever its brightness
+            if abs(got - complex(kx, ky)) > 1e-5 * scale:
                 key = "com-unshifted-coordinates" if not c["shifted"] else "com-shifted-coordinates"
-                ctx.violation(f"{key}:{'mrad' if c['units'] == 'mrad' else 'invA'}", c, {"observed": [got.real, got.imag], "expected_first_moment": [first_moment.real, first_moment.imag]})
+                if abs(got - c["weight"] * complex(kx, ky)) <= 1e-5 * scale * max(1.0, c["weight"]):
+                    key = "com-not-normalised-by-total-intensity"
+                else:
+                    key = f"{key}:{'mrad' if c['units'] == 'mrad' else 'invA'}"
+                ctx.violation(key, c, {"observed": [got.real, got.imag], "pixel_frequency": [kx, ky], "weight": c["weight"]})
                 return False
-            if abs(got - complex(kx, ky)) > 1e-5 * scale * max(1.0, c["weight"]):
-                # the property's own wording: COM of a single bright pixel is that pixel's frequency, whatever its brightness
-                ctx.violation("com-not-normalised-by-total-intensity", c, {"observed": [got.real, got.imag], "pixel_frequency": [kx, ky], "weight": c["weight"]})
-                ok_known = False  # recorded; the random-pattern first-moment check below still runs
-            # (2) random pattern: first moment against an independent double loop
+            # a pattern without intensity: finite, zero
+            z = DiffractionPatterns(np.zeros((1, 1, nx, ny)), sampling=(c["sx"], c["sy"]), fftshift=c["shifted"], ensemble_axes_metadata=scan, metadata=md)
+            gz = complex(np.asarray(z.center_of_mass(units=c["units"]).array).reshape(-1)[0])
+            if not (np.isfinite(gz.real) and np.isfinite(gz.imag)) or abs(gz) != 0:
+                ctx.violation("com-empty-pattern-not-zero", c, {"observed": repr(gz)})
+                return False
+            # (2) random pattern: intensity-weighted mean against an independent double loop
             rng = np.random.default_rng(c["seed"])
-            b = rng.random((1, 1, nx, ny))
+            b = rng.random((1, 1, nx, ny)) * c["weight"]
             d = DiffractionPatterns(b, sampling=(c["sx"], c["sy"]), fftshift=c["shifted"], ensemble_axes_metadata=scan, metadata=md)
             got = complex(np.asarray(d.center_of_mass(units=c["units"]).array).reshape(-1)[0])
-            ex = sum(b[0, 0, i, j] * fx[i] * s[0] for i in range(nx) for j in range(ny))
-            ey = sum(b[0, 0, i, j] * fy[j] * s[1] for i in range(nx) for j in range(ny))
-            if abs(got - complex(ex, ey)) > 1e-5 * scale * b.sum():
-                ctx.violation("com-first-moment", c, {"observed": [got.real, got.imag], "expected": [ex, ey]})
+            ex = sum(b[0, 0, i, j] * fx[i] * s[0] for i in range(nx) for j in range(ny)) / b.sum()
+            ey = sum(b[0, 0, i, j] * fy[j] * s[1] for i in range(nx) for j in range(ny)) / b.sum()
+            if abs(got - complex(ex, ey)) > 1e-5 * scale:
+                ctx.violation("com-not-weighted-mean", c, {"observed": [got.real, got.imag], "expected": [ex, ey]})
                 return False
             ctx.count(f"conf-com:{c['units']}:shifted={c['shifted']}:weight={'1' if c['weight'] == 1.0 else 'other'}")
-            return ok_known
+            return True
         # gradient integration
         phi, gx, gy = make_field(c)
         g = (gx + 1j * gy).astype(np.complex128)
